@@ -21,7 +21,8 @@ class Fd:
         self.strat, self.c, self.ko, self.sub = strat, c, ko, sub
     def text(self):
         s = self.strat
-        if s in ('Pi', 'Po', 'Pe', 'K'): return s
+        if s in ('Pi', 'Po', 'Pe'): return s
+        if s == 'K': return f"K{self.c}" + (self.sub.text() if self.c == 1 else '')
         if s in ('R', 'Q'): return s + self.sub.text()
         if s in ('L', 'U', 'M'): return f"{s}{self.c}"
         return f"N{self.ko}{self.c}{self.sub.text()}"
@@ -43,7 +44,9 @@ def parse_shape(t):
         c = t[pos[0]]
         if c == 'P':
             s = t[pos[0]:pos[0] + 2]; pos[0] += 2; return Fd(s)
-        if c == 'K': pos[0] += 1; return Fd('K')
+        if c == 'K':
+            k = int(t[pos[0] + 1]); pos[0] += 2
+            return Fd('K', c=k, sub=sh() if k == 1 else None)
         if c in 'RQ': pos[0] += 1; return Fd(c, sub=sh())
         if c in 'LUM':
             k = int(t[pos[0] + 1]); pos[0] += 2; return Fd(c, c=k)
@@ -63,7 +66,10 @@ def gen_shape(rng, depth, allow_enum=True, weights=None):
         opts = ['Pi', 'Pi', 'Po', 'Pe', 'K', 'K', 'L', 'U', 'M']
         if depth > 0: opts += ['R', 'R', 'Q', 'Q', 'N', 'N']
         s = rng.choice(opts)
-        if s in ('Pi', 'Po', 'Pe', 'K'): fs.append(Fd(s))
+        if s in ('Pi', 'Po', 'Pe'): fs.append(Fd(s))
+        elif s == 'K':     # skipped fields of several types, so that `skip` is combined with other attribute items
+            k = rng.choice([0, 0, 0, 1, 2, 3]) if depth > 0 else rng.choice([0, 0, 2, 3])
+            fs.append(Fd('K', c=k, sub=gen_shape(rng, depth - 1, allow_enum=False) if k == 1 else None))
         elif s == 'L': fs.append(Fd('L', c=rng.randrange(3)))
         elif s == 'U': fs.append(Fd('U', c=rng.randrange(4)))
         elif s == 'M': fs.append(Fd('M', c=rng.randrange(2)))
@@ -93,8 +99,10 @@ def gen_val(rng, sh):
 
 def gen_field(rng, f):
     s = f.strat
-    if s in ('Pi', 'K'): return gen_atom(rng)
-    if s == 'Po': return ('n',) if rng.random() < 0.4 else ('s', gen_atom(rng))
+    if s == 'Pi' or (s == 'K' and f.c == 0): return gen_atom(rng)
+    if s == 'K' and f.c == 1: return gen_val(rng, f.sub)
+    if s == 'K' and f.c == 2: return gen_seq(rng, False, small=True)
+    if s == 'Po' or (s == 'K' and f.c == 3): return ('n',) if rng.random() < 0.4 else ('s', gen_atom(rng))
     if s == 'Pe': return ('a', rng.choice(ENUM_ATOMS))
     if s == 'R': return gen_val(rng, f.sub)
     if s == 'Q': return ('n',) if rng.random() < 0.4 else ('s', gen_val(rng, f.sub))
@@ -110,7 +118,7 @@ def mutate_field(rng, f, v, mode):
     """a neighbouring value of field f; mode in {'any','skiponly','orderonly'}"""
     s = f.strat
     if mode == 'skiponly':
-        if s == 'K': return gen_atom(rng)
+        if s == 'K': return gen_field(rng, f)
         if s == 'R' and f.sub.kind == 'S': return mutate_val(rng, f.sub, v, 'skiponly')
         if s == 'Q' and v[0] == 's' and f.sub.kind == 'S': return ('s', mutate_val(rng, f.sub, v[1], 'skiponly'))
         if s == 'N': return ('r', [(k, mutate_val(rng, f.sub, x, 'skiponly')) for k, x in v[1]])
@@ -169,7 +177,7 @@ def perturb_equiv(rng, sh, v):
     out = []
     for f, x in zip(sh.fields, v[1]):
         s = f.strat
-        if s == 'K': out.append(gen_atom(rng) if rng.random() < 0.7 else x)
+        if s == 'K': out.append(gen_field(rng, f) if rng.random() < 0.7 else x)
         elif s == 'U' and f.c < 2:
             l = list(x[1]); rng.shuffle(l); out.append(('q', l))
         elif s == 'R': out.append(perturb_equiv(rng, f.sub, x))
@@ -229,7 +237,7 @@ def canon_val(sh, v):
         s = f.strat
         if s == 'U': out.append(('q', sorted(x[1])))
         elif s == 'M': out.append(('m', sorted(x[1])))
-        elif s == 'R': out.append(canon_val(f.sub, x))
+        elif s == 'R' or (s == 'K' and f.c == 1): out.append(canon_val(f.sub, x))
         elif s == 'Q' and x[0] == 's': out.append(('s', canon_val(f.sub, x[1])))
         elif s == 'N': out.append(('r', sorted((k, canon_val(f.sub, y)) for k, y in x[1])))
         else: out.append(x)
@@ -239,6 +247,16 @@ def canon_val(sh, v):
 ORD_T = ['Vec<i64>', 'LinkedList<i64>', 'VecDeque<i64>']
 UNO_T = ['Vec<i64>', 'LinkedList<i64>', 'HashSet<i64>', 'BTreeSet<i64>']
 MAP_T = ['HashMap<i64, i64>', 'BTreeMap<i64, i64>']
+
+# legal spellings of a skipped field: `skip` alone, with other items before/after it, in a separate attribute
+SPELL_SKIP = ['#[difference(skip)]', '/// doc comment\n    #[difference(skip)]', '#[allow(dead_code)]\n    #[difference(skip)]']
+SPELL_SKIP_REC = ['#[difference(recurse, skip)]', '#[difference(skip, recurse)]', '#[difference(recurse)]\n    #[difference(skip)]', '#[difference(skip)]']
+SPELL_SKIP_COLL = ['#[difference(collection_strategy = "ordered_array_like", skip)]', '#[difference(skip, collection_strategy = "unordered_array_like")]',
+                   '#[difference(skip)]\n    #[difference(collection_strategy = "ordered_array_like")]']
+SPELL_MAP = ['#[difference(collection_strategy = "unordered_map_like", map_equality = "MAPEQ")]', '#[difference(map_equality = "MAPEQ", collection_strategy = "unordered_map_like")]',
+             '#[difference(collection_strategy = "unordered_map_like")]\n    #[difference(map_equality = "MAPEQ")]']
+SPELL_RMAP = ['#[difference(collection_strategy = "unordered_map_like", recurse, map_equality = "%s")]', '#[difference(recurse, collection_strategy = "unordered_map_like", map_equality = "%s")]',
+              '#[difference(map_equality = "%s", recurse)]\n    #[difference(collection_strategy = "unordered_map_like")]']
 
 def rust_types(sh, name, out, derives, struct_attr=''):
     """emit struct definitions + Vconv impls for shape sh named `name` (depth-first); returns the Rust type name"""
@@ -251,16 +269,19 @@ def rust_types(sh, name, out, derives, struct_attr=''):
         if s == 'Pi': ty, attr = 'i64', ''
         elif s == 'Po': ty, attr = 'Option<i64>', ''
         elif s == 'Pe': ty, attr = 'En', ''
-        elif s == 'K': ty, attr = 'i64', '#[difference(skip)]'
+        elif s == 'K' and f.c == 0: ty, attr = 'i64', SPELL_SKIP[(i + len(name)) % len(SPELL_SKIP)]
+        elif s == 'K' and f.c == 1: ty, attr = rust_types(f.sub, f"{name}_{i}", out, derives), SPELL_SKIP_REC[(i + len(name)) % len(SPELL_SKIP_REC)]
+        elif s == 'K' and f.c == 2: ty, attr = 'Vec<i64>', SPELL_SKIP_COLL[(i + len(name)) % len(SPELL_SKIP_COLL)]
+        elif s == 'K' and f.c == 3: ty, attr = 'Option<i64>', '#[difference(skip)]'
         elif s == 'R': ty, attr = rust_types(f.sub, f"{name}_{i}", out, derives), '#[difference(recurse)]'
         elif s == 'Q': ty, attr = f"Option<{rust_types(f.sub, f'{name}_{i}', out, derives)}>", '#[difference(recurse)]'
         elif s == 'L': ty, attr = ORD_T[f.c], '#[difference(collection_strategy = "ordered_array_like")]'
         elif s == 'U': ty, attr = UNO_T[f.c], '#[difference(collection_strategy = "unordered_array_like")]'
-        elif s == 'M': ty, attr = MAP_T[f.c], '#[difference(collection_strategy = "unordered_map_like", map_equality = "MAPEQ")]'
+        elif s == 'M': ty, attr = MAP_T[f.c], SPELL_MAP[(i + len(name)) % len(SPELL_MAP)]
         else:
             inner = rust_types(f.sub, f"{name}_{i}", out, derives)
             ty = ('HashMap' if f.c == 0 else 'BTreeMap') + f"<i64, {inner}>"
-            attr = '#[difference(collection_strategy = "unordered_map_like", recurse, map_equality = "%s")]' % ('key_only' if f.ko else 'key_and_value')
+            attr = SPELL_RMAP[(i + len(name)) % len(SPELL_RMAP)] % ('key_only' if f.ko else 'key_and_value')
         fields.append(f"    {attr}\n    pub {fn}: {ty}," if attr else f"    pub {fn}: {ty},")
         fromv.append(f"            {fn}: <{ty} as Fconv>::fv(&fs[{i}], {1 if s == 'U' else 0}),")
         tov.append(f"            self.{fn}.tv({1 if s == 'U' else 0}),")
@@ -357,10 +378,11 @@ def dval(sh, d):
 
 def dfield(f, d):
     s = f.strat
-    if s in ('Pi', 'K'): return ('a', int(d.atom))
+    if s == 'Pi' or (s == 'K' and f.c == 0): return ('a', int(d.atom))
     if s == 'Pe': return ('a', enum_atom(d))
-    if s == 'Po': return ('n',) if d.name == 'None' else ('s', ('a', int(d.items[0].atom)))
-    if s == 'R': return dval(f.sub, d)
+    if s == 'Po' or (s == 'K' and f.c == 3): return ('n',) if d.name == 'None' else ('s', ('a', int(d.items[0].atom)))
+    if s == 'R' or (s == 'K' and f.c == 1): return dval(f.sub, d)
+    if s == 'K' and f.c == 2: return ('q', [int(x.atom) for x in d.items])
     if s == 'Q': return ('n',) if d.name == 'None' else ('s', dval(f.sub, d.items[0]))
     if s == 'L': return ('q', [int(x.atom) for x in d.items])
     if s == 'U': return ('q', sorted(int(x.atom) for x in d.items))
